@@ -147,6 +147,51 @@ theorem union_cell (sqrt : Rat → Rat) (a : Arr) (t : List Arr) (r : Arr) (i : 
     unfold Cell.insure
     simp only [hcm, Bool.false_eq_true, if_false, h3 hcm]
 
+/-- **FuzzyWeightedUnion**: each cell is missing iff some input is missing there (or the weights sum to zero), and otherwise holds the
+clamped weighted mean Σ wⱼ·xⱼ / Σ wⱼ of the column. -/
+theorem weightedUnion_cell (sqrt : Rat → Rat) (w : Num) (wr : List Num) (a : Arr) (t : List Arr) (r : Arr) (i : Nat)
+    (h : exec sqrt (.fuzzyWeightedUnion (w :: wr)) (a :: t) = .ok r) (hi : ∀ x ∈ a :: t, i < x.cells.length) :
+    ∃ c, r.cells[i]? = some c ∧ c.mask = ((column (a :: t) i).any (·.mask) || (sumNums (w :: wr) == 0)) ∧
+      (c.mask = false → c.val = clampHiLo (-1) 1
+        ((List.zipWith (fun (w : Num) (c : Cell) => c.val * w.val) (w :: wr) (column (a :: t) i)).sum / sumNums (w :: wr))) := by
+  simp only [exec] at h
+  split at h
+  · cases h
+  · rename_i hlen
+    obtain ⟨_, _, h⟩ := bind_ok h
+    simp only [fuzzyClamp, Except.map, Except.ok.injEq] at h
+    subst h
+    obtain ⟨c, h1, h2, h3⟩ := C07.weightedAcc_cell w wr a t .float i (by have := hlen; simp at this; omega) hi
+    refine ⟨Cell.insure (-1) 1 (Cell.divSc (sumNums (w :: wr)) c), ?_, ?_, ?_⟩
+    · simp only [Arr.insure, Arr.mapCells, List.getElem?_map] at h1 ⊢
+      rw [h1]; rfl
+    · rw [← h2]; unfold Cell.insure Cell.divSc; cases c.mask <;> cases (sumNums (w :: wr) == 0) <;> rfl
+    · intro hm
+      have hdm : (Cell.divSc (sumNums (w :: wr)) c).mask = false := by
+        unfold Cell.insure at hm; cases hc : (Cell.divSc (sumNums (w :: wr)) c).mask <;> simp_all
+      have hcm : c.mask = false ∧ (sumNums (w :: wr) == 0) = false := by
+        unfold Cell.divSc at hdm; simpa using hdm
+      unfold Cell.insure
+      simp only [hdm, Bool.false_eq_true, if_false]
+      simp only [Cell.divSc, hcm.1, hcm.2, Bool.or_false, Bool.false_eq_true, if_false, h3 hcm.1]
+
+/-- **FuzzyWeightedUnion is independent of the order of its inputs** (weights permuted alongside). -/
+theorem weightedUnion_perm (sqrt : Rat → Rat) {ws ws' : List Num} {xs xs' : List Arr} (hl : ws.length = xs.length) (hl' : ws'.length = xs'.length)
+    (h : (ws.zip xs).Perm (ws'.zip xs')) (n : Nat) (hn : ∀ x ∈ xs, x.cells.length = n) :
+    ExceptR (exec sqrt (.fuzzyWeightedUnion ws) xs) (exec sqrt (.fuzzyWeightedUnion ws') xs') := by
+  obtain ⟨hw, hx⟩ := C07.perm_of_zip_perm hl hl' h
+  simp only [exec]
+  have e1 : (xs.length != ws.length) = false := by simp [hl]
+  have e2 : (xs'.length != ws'.length) = false := by simp [hl']
+  simp only [e1, e2, Bool.false_eq_true, if_false]
+  rw [← validateShapes_perm _ hx, ← C07.sumNums_perm hw]
+  rcases validateShapes_cases (.arg "InFieldNames") xs with hv | hv | hv <;> rw [hv]
+  · have hne : xs ≠ [] := by intro e; subst e; simp [validateShapes, eMp] at hv
+    exact fuzzyClamp_R (ExceptR.ok (mapCells_R (fun _ _ => divSc_R _)
+      (C07.weightedAcc_perm hl hl' h n hn hne ((validateShapes_ok_iff _ xs hne).mp hv) _)))
+  · exact ExceptR.eMp _ _
+  · exact ExceptR.eMp _ _
+
 /-- the mean of values in [-1, 1] lies in [-1, 1]: on fuzzy inputs FuzzyUnion's clamp changes nothing -/
 theorem mean_in_range (x : Rat) (l : List Rat) (h : ∀ y ∈ x :: l, -1 ≤ y ∧ y ≤ 1) :
     -1 ≤ (x :: l).sum / ((x :: l).length : Nat) ∧ (x :: l).sum / ((x :: l).length : Nat) ≤ 1 := by
